@@ -50,6 +50,7 @@ void Executor::runState(StateP sp) {
         if (s.assertedSomething) pathsWithSymAssert++;
         for (auto &l : s.reached) reachCount[l]++;
         if (opt.concrete) concreteTraces.push_back(s.trace);
+        if (!s.trace.empty() && pathTraces.size() < 8) pathTraces.push_back(s.trace);
         if (samplePaths.size() < 6 && !opt.concrete && (pathsDone % 7 == 1 || samplePaths.size() < 2)) {
             // sample: one model of this path
             z3::model m(*ZC);
@@ -133,6 +134,7 @@ int main(int argc, char **argv) {
         else if (a == "--no-dedup") opt.dedupFailures = 0;
         else if (a == "--no-slice") opt.noSlice = true;
         else if (a == "--profile") opt.profile = true;
+        else if (a == "--symbolic-entropy") opt.symbolicEntropy = true;
         else if (a == "--dump-unknown") opt.dumpDir = nx();
         else if (a == "--dump-all") { opt.dumpDir = nx(); opt.dumpAll = true; }
         else if (a == "--fix") { std::string kv = nx(); size_t e = kv.find('='); if (e != std::string::npos) opt.fixedChoice[kv.substr(0, e)] = std::stoull(kv.substr(e + 1)); }
@@ -195,6 +197,8 @@ int main(int argc, char **argv) {
     }
     o << "],\n \"samples\":[";
     { bool first = true; for (auto &x : ex.samplePaths) { if (!first) o << ","; first = false; o << "\n  " << x; } }
+    o << "],\n \"traces\":[";
+    { bool first = true; for (auto &t : ex.pathTraces) { if (!first) o << ","; first = false; o << "["; bool f2 = true; for (auto &l : t) { if (!f2) o << ","; f2 = false; o << "\"" << jesc(l) << "\""; } o << "]"; } }
     o << "],\n \"concrete_traces\":[";
     { bool first = true; for (auto &t : ex.concreteTraces) { if (!first) o << ","; first = false; o << "["; bool f2 = true; for (auto &l : t) { if (!f2) o << ","; f2 = false; o << "\"" << jesc(l) << "\""; } o << "]"; } }
     o << "],\n \"failures\":[";
